@@ -232,6 +232,12 @@ fn e2e(out: &mut Out, rng: &mut Rng, args: &hcommon::Args) {
     models.extend(family_subgraphs(rng, if th { 100 } else { 20 }));
     models.extend(family_graphs(rng, th, if th { 600 } else { 120 }));
     models.extend(family_external(rng, if th { 60 } else { 15 }));
+    // one model in seven is written in the V1 container (FlatBuffers only, tensor data inline)
+    for m in models.iter_mut() {
+        if rng.chance(1, 7) {
+            m.extra_args = "--v1".into();
+        }
+    }
     let dir = std::path::Path::new(&args.out).join("e2e");
     let _ = std::fs::remove_dir_all(&dir);
     let conv = convert_all(&dir, &models, 12);
@@ -242,6 +248,9 @@ fn e2e(out: &mut Out, rng: &mut Rng, args: &hcommon::Args) {
         cov.record(e, c.status == "ok");
         let fam = e.label.split('/').next().unwrap_or("?").to_string();
         out.bucket(&format!("e2e:{fam}"));
+        if e.extra_args == "--v1" {
+            out.bucket("e2e:format_v1");
+        }
         for b in &v.buckets {
             out.bucket(&format!("e2e:{b}"));
         }
@@ -271,7 +280,7 @@ fn e2e(out: &mut Out, rng: &mut Rng, args: &hcommon::Args) {
             }
             None => {
                 let bytes = std::fs::read(&c.onnx_path).unwrap_or_default();
-                let req = format!("# e2e {i} {} opset={} onnx={}", e.label.replace(' ', "_"), e.opset, hex(&bytes));
+                let req = format!("# e2e {i} {} opset={}{} onnx={}", e.label.replace(' ', "_"), e.opset, if e.extra_args.is_empty() { String::new() } else { format!(" args={}", e.extra_args) }, hex(&bytes));
                 let ans = if c.status == "ok" { v.answer.clone() } else { format!("{} [{}]", v.answer, c.status.chars().take(160).collect::<String>()) };
                 out.case(&req, &ans, fail.as_deref(), ran);
             }
